@@ -107,6 +107,13 @@ pub enum ToLiveActor {
         namespace: NamespaceId,
         peer: PublicKey,
     },
+    /// Verification hook: the coordination state of a document as the running actor holds it.
+    #[cfg(feature = "verif")]
+    VerifSnapshot {
+        namespace: NamespaceId,
+        #[debug("oneshot::Sender")]
+        reply: sync::oneshot::Sender<VerifLiveSnapshot>,
+    },
 }
 
 /// Events informing about actions of the live sync progress.
@@ -359,6 +366,17 @@ impl LiveActor {
                 hash,
             } => {
                 self.on_neighbor_content_ready(namespace, node, hash).await;
+            }
+            #[cfg(feature = "verif")]
+            ToLiveActor::VerifSnapshot { namespace, reply } => {
+                reply
+                    .send(VerifLiveSnapshot {
+                        syncing: self.state.is_syncing(&namespace),
+                        connects_in_flight: self.running_sync_connect.len(),
+                        accepts_in_flight: self.running_sync_accept.len(),
+                        peers: self.state.verif_snapshot_all(&namespace),
+                    })
+                    .ok();
             }
         };
         Ok(true)
@@ -1022,6 +1040,20 @@ mod tests {
         drop(b_rx);
         subscribers.send(Event::NeighborUp(pk)).await;
     }
+}
+
+/// What the running live actor knows about a document (verification hook).
+#[cfg(feature = "verif")]
+#[derive(Debug, Clone)]
+pub struct VerifLiveSnapshot {
+    /// The actor syncs the document.
+    pub syncing: bool,
+    /// Dial tasks (of all documents) that have not been collected yet.
+    pub connects_in_flight: usize,
+    /// Accept tasks (of all documents) that have not been collected yet.
+    pub accepts_in_flight: usize,
+    /// The slot of every peer the actor has a record of for this document.
+    pub peers: Vec<(PublicKey, super::state::VerifPeerState)>,
 }
 
 /// A dial decision recorded by the verification dial sink.
